@@ -185,7 +185,7 @@ PROPS["C10"] = dict(
                  "MIR aggregate `CallInputs { .. is_static: X .. }` is the only place the child's flag is set (one construction per opcode, checked)"],
     harnesses=[H("c10::c10_" + n, timeout=600, mem_gb=6, bounds="all operands x all gas, static frame") for n in _C10]
     + [H("c10::c10_call_with_value", tier="thorough", timeout=2400, mem_gb=26, bounds="all non-zero values x all gas (concrete target; 18.5 GB)"),
-       H("c10::c10_extcall_with_value", tier="thorough", timeout=1500, mem_gb=14, bounds="all non-zero values x target x gas (EOF frame)"),
+       # c10::c10_extcall_with_value (EOF frame) is not registered: 14 GB once, then out of memory at 14 GB and at 24 GB (rule 8.2); the EXTCALL value guard is decided by e3::static_value_guard
        H("c10::c10_twin_must_fail", expect_fail=True, bounds="vacuity twin", mem_gb=6)],
     jobs=[dict(name="e3::static_flag_propagation", fn=jobs_e3.run_static_flag),
           dict(name="e3::static_value_guard", fn=jobs_e3.run_value_guard)],
